@@ -47,11 +47,13 @@ def reaching_def(name: str, at: ast.AST) -> Optional[ast.AST]:
             if isinstance(prev, ast.Assign) and len(prev.targets) == 1 and \
                     isinstance(prev.targets[0], ast.Name) and \
                     prev.targets[0].id == name:
-                return prev.value
+                return None if _stale_len(prev.value, blk[k + 1:i]) \
+                    else prev.value
             if isinstance(prev, ast.AnnAssign) and \
                     isinstance(prev.target, ast.Name) and \
                     prev.target.id == name and prev.value is not None:
-                return prev.value
+                return None if _stale_len(prev.value, blk[k + 1:i]) \
+                    else prev.value
             if name in assigned_names(prev, mutation=False):
                 return None   # assigned inside a compound statement
         if par is None or isinstance(par, FUNC_TYPES):
@@ -65,6 +67,34 @@ def reaching_def(name: str, at: ast.AST) -> Optional[ast.AST]:
         if not isinstance(par, ast.stmt):
             return None
         cur = par
+
+
+_GROWERS = ("append", "insert", "extend", "pop", "remove", "clear", "add",
+            "discard", "append_list_element")
+
+
+def _stale_len(value: ast.AST, between: List[ast.stmt]) -> bool:
+    """``value`` reads ``len(X)`` and a statement between the definition
+    and the use changes the size of X: the definition no longer describes
+    the value at the use (``i = len(d) - 1`` taken *before* an append is
+    not the index of the appended element)."""
+    sized = {src(c.args[0]) for c in ast.walk(value)
+             if isinstance(c, ast.Call) and isinstance(c.func, ast.Name) and
+             c.func.id == "len" and len(c.args) == 1}
+    if not sized:
+        return False
+    for st in between:
+        for c in ast.walk(st):
+            if isinstance(c, ast.Call) and isinstance(c.func, ast.Attribute):
+                if c.func.attr in _GROWERS and (
+                        src(c.func.value) in sized or
+                        any(src(a) in sized for a in c.args[:1])):
+                    return True
+            if isinstance(c, ast.Delete):
+                for t in c.targets:
+                    if isinstance(t, ast.Subscript) and src(t.value) in sized:
+                        return True
+    return False
 
 
 def loop_binding(name: str, at: ast.AST
@@ -110,7 +140,8 @@ def loop_binding(name: str, at: ast.AST
     return None
 
 
-def variants(expr: ast.AST, at: ast.AST, depth: int = 0) -> Set[str]:
+def variants(expr: ast.AST, at: ast.AST, depth: int = 0,
+             strict: bool = False) -> Set[str]:
     """Source texts denoting the same value as ``expr`` up to text/number
     conversion: through reaching definitions, ``str()``/``int()`` wrappers,
     ``x.value if isinstance(x, TaggedScalar) else x`` and unwrap helpers."""
@@ -119,28 +150,33 @@ def variants(expr: ast.AST, at: ast.AST, depth: int = 0) -> Set[str]:
         return out
     if isinstance(expr, ast.Call) and isinstance(expr.func, ast.Name) and \
             expr.func.id in ("str", "int") and len(expr.args) == 1:
-        out |= variants(expr.args[0], at, depth + 1)
+        # ``strict``: a key and its text/number conversion are different
+        # keys of a mapping (d["80"] is not d[80])
+        if not strict:
+            out |= variants(expr.args[0], at, depth + 1, strict)
     elif isinstance(expr, ast.Call) and \
             src(expr.func).endswith("unwrap_node_coords") and expr.args:
-        out |= variants(expr.args[0], at, depth + 1)
+        out |= variants(expr.args[0], at, depth + 1, strict)
     elif isinstance(expr, ast.IfExp):
-        out |= variants(expr.body, at, depth + 1)
-        out |= variants(expr.orelse, at, depth + 1)
+        out |= variants(expr.body, at, depth + 1, strict)
+        out |= variants(expr.orelse, at, depth + 1, strict)
     elif isinstance(expr, ast.Attribute) and expr.attr == "value":
-        out |= variants(expr.value, at, depth + 1)
+        out |= variants(expr.value, at, depth + 1, strict)
     elif isinstance(expr, ast.Name):
         d = reaching_def(expr.id, at)
         if d is not None:
-            out |= variants(d, at, depth + 1)
+            out |= variants(d, at, depth + 1, strict)
     return out
 
 
-def same_value(a: ast.AST, b: ast.AST, at: ast.AST) -> bool:
-    return bool(variants(a, at) & variants(b, at))
+def same_value(a: ast.AST, b: ast.AST, at: ast.AST,
+               strict: bool = False) -> bool:
+    return bool(variants(a, at, 0, strict) & variants(b, at, 0, strict))
 
 
-def equal_by_fact(a: ast.AST, b: ast.AST, at: ast.AST) -> Optional[Fact]:
-    va, vb = variants(a, at), variants(b, at)
+def equal_by_fact(a: ast.AST, b: ast.AST, at: ast.AST,
+                  strict: bool = False) -> Optional[Fact]:
+    va, vb = variants(a, at, 0, strict), variants(b, at, 0, strict)
     for f in facts_at(at):
         e = f.expr
         if f.kind == "cond" and f.pol and isinstance(e, ast.Compare) and \
@@ -355,8 +391,8 @@ def check_tuple(der: Derivation, at: ast.AST, roles: Dict[str, str],
     if parentref_e is None:
         if "parentref" not in allow_missing:
             res.problems.append("parentref is not passed")
-    elif not same_value(parentref_e, key, at):
-        f = equal_by_fact(parentref_e, key, at)
+    elif not same_value(parentref_e, key, at, strict=True):
+        f = equal_by_fact(parentref_e, key, at, strict=True)
         if f is None:
             res.problems.append(
                 "node is `{}[{}]` but parentref is `{}`".format(
@@ -439,8 +475,8 @@ def check_tuple(der: Derivation, at: ast.AST, roles: Dict[str, str],
                 res.problems.append(
                     "ancestry entry names container `{}`, node is in `{}`"
                     .format(src(c2), src(cont)))
-            elif not same_value(k2, key, at) and \
-                    equal_by_fact(k2, key, at) is None:
+            elif not same_value(k2, key, at, strict=True) and \
+                    equal_by_fact(k2, key, at, strict=True) is None:
                 res.problems.append(
                     "ancestry entry is `({}, {})` but the node is at "
                     "`{}[{}]`".format(src(c2), src(k2), src(cont), src(key)))
